@@ -12,7 +12,7 @@ TECHNIQUE = ("bounded-exhaustive enumeration of correlation-id patterns (present
 RULE = ("every set of entries after the leading host operator with, per correlation id c in C, at most one host "
         "call in {launch, non-launch runtime call} and at most one device record in {kernel, memcpy, stream sync "
         "on a stream, Event Sync / Context Sync on stream -1}, optionally a host op without correlation and a GPU "
-        "annotation without correlation; x every file order (all permutations up to P entries, else identity, "
+        "annotation without correlation or an Event/Context Sync record without correlation id; x every file order (all permutations up to P entries, else identity, "
         "reversal, rotations) and x padding with metadata entries so that event ids exceed 127 / 255 / 32767 while "
         "correlation ids stay small; plus a trimmed slice (2-3 profiler steps, launches at every position, so that the "
         "loader drops events: links inside the loaded frame must stay mutual and point to present rows); checked after parse_trace_file and after load_traces. non-trivial = contains a "
@@ -54,6 +54,10 @@ def build(code: str, c: int, slot: int) -> Dict[str, Any]:
         return kineto.cuda_sync("Context Sync", ts + 1, 3, -1, c)
     if code == "A":
         return kineto.gpu_annotation("gpu_anno", ts + 1, 3, 7)
+    if code == "U":   # a device-level sync record that carries no correlation id
+        e = kineto.cuda_sync("Context Sync" if slot % 2 else "Event Sync", ts + 1, 3, -1, 0)
+        del e["args"]["correlation"]
+        return e
     raise ValueError(code)
 
 
@@ -70,16 +74,18 @@ def worlds(tier: str, stats: Dict[str, Any]) -> Iterator[Any]:
     yield from trimmed_worlds(stats)
     for cs in b["corr_sets"]:
         c1, c2 = cs
-        for h1, h2, d1, d2, hh, aa in itertools.product(HOST, HOST, DEV, DEV, (0, 1), (0, 1)):
+        for h1, h2, d1, d2, hh, aa in itertools.product(HOST, HOST, DEV, DEV, (0, 1), (0, 1, 2)):
+            if aa == 2 and hh:
+                continue
             ents = []
             slot = 0
-            for code, c in ((h1, c1), (d1, c1), (h2, c2), (d2, c2), ("H" if hh else None, -1), ("A" if aa else None, -1)):
+            for code, c in ((h1, c1), (d1, c1), (h2, c2), (d2, c2), ("H" if hh else None, -1), ({1: "A", 2: "U"}.get(aa), -1)):
                 if code:
                     ents.append(build(code, c, slot))
                     slot += 1
             if not ents:
                 continue
-            sig = "".join(x or "-" for x in (h1, d1, h2, d2)) + ("H" if hh else "") + ("A" if aa else "")
+            sig = "".join(x or "-" for x in (h1, d1, h2, d2)) + ("H" if hh else "") + {0: "", 1: "A", 2: "U"}[aa]
             for o in orders(len(ents), b["P"]):
                 stats["transitions"] += 1
                 evs = [kineto.cpu_op("aten::root", E0, 100, ext=0)] + [ents[k] for k in o]
